@@ -252,3 +252,14 @@ Proof.
   cbv zeta. split; [intros; constructor|]. split; [repeat constructor; cbn; try discriminate; reflexivity|].
   repeat split; vm_compute; reflexivity.
 Qed.
+
+(* ---------------- source tie ----------------
+   C19_needs_pill: a worker returns only at a pill.  The number of pills _fill_queue puts on the queue after all the
+   items, as regenerated from the source AST on this run (generated/KernelsHelpers.v), is one per worker *)
+From Sketchnu Require KernelsHelpers KernelTieHelpers.
+Theorem C19_pills_source_tie : forall n_workers : Z, KernelsHelpers.gen_fill_pills n_workers = n_workers.
+Proof. exact KernelTieHelpers.tie_fill_pills. Qed.
+Print Assumptions C19_pills_source_tie.
+
+Example C19_pills_source_tie_nonvacuous : map KernelsHelpers.gen_fill_pills [1; 4] = [1; 4].
+Proof. vm_compute. reflexivity. Qed.
